@@ -33,7 +33,7 @@ ASSUMPTIONS = [
 ]
 EXHAUSTIVE = {'quick': False, 'thorough': False}
 PYOPT_KINDS = ('graphs',)
-KNOWN_KEYS = {'package-name-backslash', 'gameloop-strip-reserialise', 'package-no-final-newline', 'require-nested-in-call', 'gameloop-dotted-name-stripped'}
+KNOWN_KEYS = {'gameloop-strip-joins-lines', 'package-name-backslash', 'gameloop-strip-reserialise', 'package-no-final-newline', 'require-nested-in-call', 'gameloop-dotted-name-stripped'}
 GAME_LOOP = (b'_init', b'_update', b'_update60', b'_draw')
 HEADER = [b'package', b'.', b'_c', b'[', None, b']', b'=', b'function', b'(', b')']
 
